@@ -134,7 +134,7 @@ impl Gen {
         };
         let advance = |g: &mut Gen, ops: &mut Vec<Op>| {
             if !g.chance(tie_p) {
-                g.t += g.rng.gen_range(1..4);
+                g.t = g.t.saturating_add(g.rng.gen_range(1..4));
                 ops.push(Op::Time(g.t));
             }
         };
@@ -224,7 +224,7 @@ impl Gen {
                 }
             }
         } else if pick(w_time) {
-            self.t += self.rng.gen_range(0..5);
+            self.t = self.t.saturating_add(self.rng.gen_range(0..5));
             ops.push(Op::Time(self.t));
         }
         ops
@@ -240,14 +240,14 @@ impl Gen {
             self.trading = true;
             ops.push(Op::Trading(true));
         }
-        self.t += 1;
+        self.t = self.t.saturating_add(1);
         ops.push(Op::Time(self.t));
         let av = live.book.ask_vol();
         let bv = live.book.bid_vol();
         if av > 0 {
             ops.push(Op::Cap(true, av, 9, None));
         }
-        self.t += 1;
+        self.t = self.t.saturating_add(1);
         ops.push(Op::Time(self.t));
         if bv > 0 {
             ops.push(Op::Cap(false, bv, 9, None));
